@@ -322,6 +322,7 @@ func c08History(line string) string {
 func init() {
 	register("c08.history", c08History)
 	register("c08.raw", c08History)
+	register("c08.batch", c08History)
 	register("c08.one", c08One)
 	register("c08.fresh", c08Fresh)
 	_ = bufio.NewReader
